@@ -32,6 +32,7 @@ struct rcfg {
   int std_target;  /* 0 none; HANDLE/FILE targets are the parent's own std stream: 1 = stdout, 2 = stderr */
   int fileno_ebadf;/* bit i: fileno() of std stream i answers EBADF (the fclose case) */
   int nonblocking;
+  int implicit;     /* HANDLE/FILE/PATH given by their member only, the type left unset (documented: "type inferred from the member that is set") */
   int closed_first; /* the descriptors are closed BEFORE the user's objects are opened: FILEs and handles land on 0-2 (a daemon that reopens its log) */
 };
 
@@ -74,8 +75,8 @@ static void c10_body(const struct rcfg *c)
   vk_cfg.vlimit = 64;
   static const char *const tn[] = { "default", "PIPE", "PARENT", "DISCARD", "STDOUT", "HANDLE", "FILE", "PATH" };
   static const char *const sh[] = { "-", "parent", "discard", "file", "path" };
-  snprintf(key, sizeof key, "h_c10|in=%s,out=%s,err=%s|shorthand=%s|closed=%d|stdtarget=%d|fileno_ebadf=%d|closed_first=%d", tn[c->t[0] < 0 ? 0 : c->t[0]], tn[c->t[1] < 0 ? 0 : c->t[1]],
-           tn[c->t[2] < 0 ? 0 : c->t[2]], sh[c->shorthand], c->closed, c->std_target, c->fileno_ebadf, c->closed_first);
+  snprintf(key, sizeof key, "h_c10|in=%s,out=%s,err=%s|shorthand=%s|closed=%d|stdtarget=%d|fileno_ebadf=%d|closed_first=%d|implicit=%d", tn[c->t[0] < 0 ? 0 : c->t[0]], tn[c->t[1] < 0 ? 0 : c->t[1]],
+           tn[c->t[2] < 0 ? 0 : c->t[2]], sh[c->shorthand], c->closed, c->std_target, c->fileno_ebadf, c->closed_first, c->implicit);
   hx_desc("%s", key);
   snprintf(key, sizeof key, "h_c10|std-closed=%s|targets=%s%s%s", c->closed ? "some" : "none", c->std_target ? "parent-std-stream" : "user-objects",
            c->fileno_ebadf ? "|fclosed" : "", c->closed_first ? "|user-objects-on-0-2" : "");
@@ -99,6 +100,7 @@ static void c10_body(const struct rcfg *c)
     reproc_redirect *rd = i == 0 ? &o.redirect.in : i == 1 ? &o.redirect.out : &o.redirect.err;
     if (t < 0) continue;
     rd->type = (REPROC_REDIRECT) t;
+    if (c->implicit && (t == T_HANDLE || t == T_FILE || t == T_PATH)) rd->type = REPROC_REDIRECT_DEFAULT;
     char name[32];
     if (t == T_HANDLE) {
       if (c->std_target) { rd->handle = c->std_target; ex.obj[i] = parent_obj[c->std_target]; }
@@ -271,14 +273,23 @@ static void c10_build(void)
           static const int cl[4] = { 1, 3, 5, 7 };
           int ta = types6[a], tb = types6[b], te = types7[e];
           if (!(ta == T_FILE || tb == T_FILE || te == T_FILE || ta == T_HANDLE || tb == T_HANDLE || te == T_HANDLE)) continue;
-          struct rcfg c = { { ta, tb, te }, 0, cl[ci], 0, 0, 0, 1 };
+          struct rcfg c = { { ta, tb, te }, 0, cl[ci], 0, 0, 0, 0, 1 };
           store[n++] = c;
         }
   for (int ci = 0; ci < 4; ci++) {
     static const int cl[4] = { 1, 3, 5, 7 };
-    struct rcfg c = { { -1, -1, -1 }, 3, cl[ci], 0, 0, 0, 1 };
+    struct rcfg c = { { -1, -1, -1 }, 3, cl[ci], 0, 0, 0, 0, 1 };
     store[n++] = c;
   }
+  /* fifth pass: the same targets named by their member alone */
+  for (int a = 0; a < 6; a++)
+    for (int b = 0; b < 6; b++)
+      for (int e = 0; e < 7; e++) {
+        int ta = types6[a], tb = types6[b], te = types7[e];
+        if (!(ta == T_FILE || tb == T_FILE || te == T_FILE || ta == T_HANDLE || tb == T_HANDLE || te == T_HANDLE || ta == T_PATH || tb == T_PATH || te == T_PATH)) continue;
+        struct rcfg c = { { ta, tb, te }, 0, 0, 0, 0, 0, 1, 0 };
+        store[n++] = c;
+      }
   c10_count[0] = n;
   /* thorough: nonblocking on as well, first pass with nothing closed and everything closed */
   for (int closed = 0; closed < 8; closed += 7)
@@ -298,12 +309,16 @@ static void c10_run(int tier, long cfg) { (void) tier; c10_build(); c10_body(&c1
 /* ================================================================= C11 */
 
 static const int limits[] = { 32, 64, 256, 1024, 2048 };
+#define NTWO 24
+#define NRLF 2
 static void c11_two_starts(long k);
+static void c11_rlimit_fault(long k);
 enum { RC_DEFAULT, RC_PIPES, RC_DISCARD, RC_HANDLES, RC_FILES, NRC };
 
 static void c11_run(int tier, long cfg)
 {
   int nl = tier ? 5 : 3;
+  if (cfg >= (long) nl * NRC * 243 + NTWO) { c11_rlimit_fault(cfg - (long) nl * NRC * 243 - NTWO); return; }
   if (cfg >= (long) nl * NRC * 243) { c11_two_starts(cfg - (long) nl * NRC * 243); return; }
   int L = limits[cfg % nl];
   cfg /= nl;
@@ -426,8 +441,52 @@ static void c11_two_starts(long k)
   for (int i = 0; i < 3; i++) close(fds[i]);
 }
 
-#define NTWO 24
-static long c11_n(int tier) { return (long) (tier ? 5 : 3) * NRC * 243 + NTWO; }
+
+/* the descriptor limit cannot be read in the forked child (getrlimit fails, or answers "unlimited"): either the start fails cleanly or the child
+ * still sees nothing but its streams and the exit handle - also with the caller's descriptors above 1024 */
+static void c11_rlimit_fault(long k)
+{
+  memset(&vk_cfg, 0, sizeof vk_cfg);
+  vk_cfg.real_exec = 1;
+  vk_cfg.vlimit = 2048;
+  vk_cfg.faults_on = 1;
+  vk_cfg.fault_bound = 1;
+  vk_cfg.fault_calls = 1ull << C_GETRLIMIT;
+  snprintf(key, sizeof key, "h_c11|limit-unreadable|redirect=%ld", k);
+  hx_desc("%s", key);
+  snprintf(key, sizeof key, "h_c11|limit-unreadable");
+  hx_begin();
+  int src = open("pool-file3", O_RDWR | O_CREAT, 0644);
+  static const int fds[4] = { 11, 1030, 1100, 2047 };
+  for (int i = 0; i < 4; i++) { dup2(src, fds[i]); fcntl(fds[i], F_SETFD, i == 1 ? FD_CLOEXEC : 0); }
+  close(src);
+  reproc_options o;
+  memset(&o, 0, sizeof o);
+  if (k == 1) o.redirect.err.type = REPROC_REDIRECT_PIPE;
+  vk_script("");
+  reproc_t *p = hx_new();
+  vk_faults_armed = 1;
+  int r = hx_start(p, hx_helper_argv(), o);
+  vk_faults_armed = 0;
+  if (r < 0) {
+    int explained = 0;
+    for (int i = 0; i < S->nevents; i++)
+      if (S->ev[i].api == hx_last_api && S->ev[i].injected && (r == -S->ev[i].injected || (S->ev[i].injected < 0 && r == -EMFILE))) explained = 1;
+    if (!explained) vk_violation("C04", "failure-cause", key, "start returned %s with no failing call behind it", hx_errname(r));
+    for (int i = 0; i < vk_nchildren; i++)
+      if (vk_children[i].state != CH_REAPED && vk_children[i].state != CH_DEAD_PREHELLO) vk_violation("C04", "failed-start-leaves-child", key, "a child was left behind after %s", hx_errname(r));
+    hx_destroy(p);
+  } else {
+    struct vk_child *ch = &vk_children[vk_nchildren - 1];
+    if (!ch->have_hello) vk_violation("C04", "success-without-program", key, "no hello");
+    else if (inherit_check("C11", ch, NULL) == 0) vk_hit(CL_POOL_TOP);
+    reproc_stop_actions kk = { { REPROC_STOP_KILL, REPROC_INFINITE }, { REPROC_STOP_NOOP, 0 }, { REPROC_STOP_NOOP, 0 } };
+    reproc_stop(p, kk);
+    hx_destroy(p);
+  }
+  for (int i = 0; i < 4; i++) close(fds[i]);
+}
+static long c11_n(int tier) { return (long) (tier ? 5 : 3) * NRC * 243 + NTWO + NRLF; }
 
 const struct hx_harness h_c10 = { "C10", "h_c10", c10_n, c10_run, redir_clauses, NULL };
 const struct hx_harness h_c11 = { "C11", "h_c11", c11_n, c11_run, redir_clauses, NULL };
